@@ -26,6 +26,11 @@ chk("C04",
     "and an accepted-language harness asserting that every accepted name is the canonical name of the returned address.",
     SMT + "; round trip over all address bits + accepted-language canonicity")
 
+chk("C05",
+    "Bounded symbolic execution of PrefixFromReversedAddr/ExtractReversedAddr against an independent reference decoder on symbolic label sequences "
+    "(octet/nibble/multi-byte labels, both roots in every case, arbitrary joining byte, leading labels) and on all short ASCII strings.",
+    SMT + "; implementation vs. independent reference decoder")
+
 _pending = "check not built yet in this session; see DESIGN.md for the plan"
 for pid in ["C01","C02","C03","C04","C05","C07","C08","C09","C10","C11","C12","C13","C14","C15","C16","C17","C18"]:
     if pid not in CHECKS:
